@@ -106,6 +106,17 @@ def main():
                     viol.append("%s:%s:%s" % (m.group(2), m.group(4), m.group(3)))
             if rc != 0 or viol:
                 fired[pid] = viol[:12]
+        if "--merge" in sys.argv:
+            # keep what the earlier (quick-tier) run recorded, add what this run found
+            try:
+                prev = json.load(open(os.path.join(VERIF, "seeded", name, "meta.json"))).get("checks_fired", {})
+            except Exception:
+                prev = {}
+            for k_, v_ in prev.items():
+                fired.setdefault(k_, v_)
+            for k_ in list(fired):
+                if k_ in (only or []) and k_ not in prev:
+                    fired[k_] = [x + " [thorough tier]" for x in fired[k_]]
         meta["checks_fired"] = fired
         meta["checks_tier"] = tier
         meta["checks_wall_s"] = round(time.time() - t0, 1)
